@@ -439,7 +439,7 @@ func init() {
 		nullDenotation: func(p *parser, right ast.Expression, tokenRange ast.Range) (ast.Expression, error) {
 			switch right := right.(type) {
 			case *ast.IntegerExpression:
-				if right.Value.Sign() > 0 {
+				if right.Value.Sign() >= 0 {
 					if right.Value != nil {
 						right.Value.Neg(right.Value)
 					}
